@@ -8,7 +8,7 @@
 
 use crate::sink::UserSink;
 use crate::util::{catch, hex, ints, Rng};
-use flacenc::bitsink::MemSink;
+use flacenc::bitsink::{ByteSink, MemSink};
 use flacenc::component::*;
 use flacenc::error::Verify;
 
@@ -481,6 +481,48 @@ pub fn generate(seed: u64, cases: usize, out: &mut dyn FnMut(String)) {
                     };
                     observe(&si, &pb, true)
                 })
+            });
+            out(finish(head, res));
+        }
+    }
+
+    // ------------------------------------------------------------------ frameless streams with extra metadata blocks (C08, C15, C18)
+    for (k, specs) in [
+        vec![],
+        vec![(1u8, 0usize)],
+        vec![(4, 5)],
+        vec![(126, 300)],
+        vec![(2, 3), (3, 0), (6, 17)],
+        vec![(1, 1), (1, 1), (5, 64), (100, 2), (126, 9)],
+    ]
+    .into_iter()
+    .enumerate()
+    {
+        for &(rate, ch, bps, bs) in &[(44100usize, 2usize, 16usize, 4096usize), (8000, 1, 8, 0), (96000, 8, 24, 192)] {
+            let blocks: Vec<(u8, Vec<u8>)> = specs.iter().map(|&(t, l)| (t, (0..l).map(|i| (i * 13 + k) as u8).collect())).collect();
+            let arg = blocks.iter().map(|(t, d)| format!("{t}:{}", hex(d))).collect::<Vec<_>>().join("|");
+            let head = format!("comp id={} cls=streammeta|m{}|{} ctor=streammeta a={rate};{ch};{bps};{bs};{}", next_id(), blocks.len(), bs, if arg.is_empty() { "-".to_string() } else { arg });
+            let res = catch(move || {
+                let mut si = StreamInfo::new(rate, ch, bps).ok()?;
+                if bs > 0 {
+                    si.set_block_sizes(bs, bs).ok()?;
+                }
+                let mut stream = Stream::with_stream_info(si);
+                for (t, d) in &blocks {
+                    stream.add_metadata_block(MetadataBlockData::new_unknown(*t, d).ok()?);
+                }
+                let pb = |bytes: &[u8]| {
+                    let b = bytes.to_vec();
+                    catch(move || match parser::stream::<nom::error::Error<&[u8]>>(&b) {
+                        Ok((_, got)) => {
+                            let mut sink = ByteSink::new();
+                            if got.write(&mut sink).is_ok() && sink.as_slice() == &b[..] && got.count_bits() == 8 * b.len() { "same".to_string() } else { "diff".to_string() }
+                        }
+                        Err(_) => "err".to_string(),
+                    })
+                    .unwrap_or_else(|_| "panic".to_string())
+                };
+                Some(observe(&stream, &pb, true))
             });
             out(finish(head, res));
         }
